@@ -191,6 +191,7 @@ def run_case(case, tier="quick", src_root=None, findings=()):
     rec["sources"] = {k: v[0] for k, v in loader.sources.items()}
     rec["dropped"] = {k: sorted(set(v.get("dropped", []))) for k, v in loader.dropped.items() if v}
     rec["trivial_safety_checks"] = getattr(cx, "trivial", 0)
+    rec["renamed_identifiers"] = dict(getattr(loader, "renamed", {}) or {})
     if rec["status"] == "ok":
         try:
             rec["jobs"] = make_jobs(case, cx, syms_by_path, tier, findings, rec)
@@ -576,9 +577,23 @@ def main(argv=None):
             rs = res if isinstance(res, list) else [res]
             und = [o for o in rs if o["verdict"] == "undecided" and _report.norm_name(o["name"]) in base]
             if und:
+                # a failing input on the real code settles it at once: no need for the long second attempt
+                found = False
+                for o in und[:3]:
+                    try:
+                        rep_, _, _ = replay(prop, o, recs[j["_rec"]], tier)
+                    except Exception:
+                        rep_ = None
+                    if rep_:
+                        found = True
+                        break
+                if found:
+                    continue
                 tmax = max(base[_report.norm_name(o["name"])] for o in und)
                 j2 = dict(j)
-                j2["timeout"] = max(3 * j["timeout"], 10 * tmax)
+                # ten times the time it took on the pinned tree for quick obligations (load spikes), three times
+                # plus a margin for the slow ones
+                j2["timeout"] = max(3 * j["timeout"], 10 * tmax if tmax < 6 else 3 * tmax + 40)
                 again.append((k, j2))
         again = again[:48]
         if again:
